@@ -507,7 +507,9 @@ def _create_params(parent, argslist_list):
     if first.type in ('name', 'fpdef'):
         return [Param([first], parent)]
     elif first == '*':
-        return [first]
+        # Either a lonely `*` or an already flat `*` `,` (when a tree is
+        # rebuilt from its dump): nothing to group.
+        return list(argslist_list)
     else:  # argslist is a `typedargslist` or a `varargslist`.
         if first.type == 'tfpdef':
             children = [first]
